@@ -48,7 +48,7 @@ def main():
             dest = mdest.group(1) if mdest else "seeded_demo/demo_test.go"
             if meta.get("demo_dest"):
                 dest = meta["demo_dest"]
-            dest = re.sub(r"^/tmp/wt[23]_C\d+/", "", dest)
+            dest = re.sub(r"^/tmp/wt[234]_C\d+/", "", dest)
             dest = re.sub(r"^/tmp/wt_C\d+/", "", dest)
             if dest.endswith("/"):
                 dest += "demo_test.go"
